@@ -251,11 +251,17 @@ def handleC17 : Handler := fun comp a impl =>
     let ival (s : String) : Int := if s.startsWith "-" then - Int.ofNat (nat! (s.drop 1).toString) else Int.ofNat (nat! s)
     let r : Int := if retry == "-" then Gen.pullRetryNumNever else ival retry
     let au : Int := if auto == "-" then Gen.autoStopNever else ival auto
-    let started := au < 0 || au > 0     -- no consumer on the stream: "immediately" means no attempt at all
-    let code := if started then "0" else impl.splitOn " " |>.headD "" |>.drop 5 |>.toString
+    -- no consumer on the stream: "immediately" (0) means no attempt at all, "never" (< 0) an attempt; a positive window
+    -- counts from the creation of the group, which the request has just caused: with a window of a few milliseconds the
+    -- outcome depends on the scheduler (no claim, the answer is echoed), with a long one the attempt starts
+    let timing := au > 0 && au < 10000
+    let started := au < 0 || au ≥ 10000
+    let implCode := impl.splitOn " " |>.headD "" |>.drop 5 |>.toString
+    let code := if timing then implCode else if started then "0" else implCode
     let model := s!"code={code} api=1 retry={r} auto={au}"
     let v := if impl == "http-error" then "bad:api-did-not-answer"
       else if (impl.splitOn s!" retry={r} auto={au}").length != 2 then "bad:start-relay-pull-does-not-use-the-values-given"
+      else if timing then "ok"
       else if !started && impl.startsWith "code=0 " then "bad:api-reports-a-started-pull-that-the-rule-forbids"
       else if started && !impl.startsWith "code=0 " then "bad:api-refuses-a-pull-the-rule-allows"
       else "ok"
